@@ -11,6 +11,8 @@ Rules (all eight point types)
       by k, the eigen-decomposition is taken of the CARTESIAN block; the k handed to the tree is the size of the index buffers
   N4  the kd-tree query collects exactly the requested number of neighbours on every call (its result set is built with the
       requested k on every path of the call, not kept from an earlier query)
+  N5  no early exit inside the quantifier: a guard in front of the per-point loop that returns is evaluated (E-STEP) on witness sizes
+      N = k+1, k+2, 5k for k = 3, 10, 30 (the quantifier starts at clouds of k+1 points); if it leaves for one of them no normal is written
 Not decided: unit length, exactness on planes, rotational equivariance (numerical properties of the eigen-decomposition);
 a re-formulated covariance computation (e.g. single pass) is UNDECIDED, not accepted or rejected."""
 from ..tree import sx, walk, pp, strip_casts, const_value, short_fn
@@ -103,6 +105,34 @@ def check_compute(fx, R, cq, cname, f):
         R.undecided('N1', inst, '%d loops' % len(loops))
         return
     L = loops[0]
+    top = f['body']['s'] if f['body']['k'] == 'Compound' else [f['body']]
+    guards = [x for x in top[:top.index(L)] if x['k'] == 'If' and any(y.get('k') == 'Return' for y in walk(x))] if L in top else None
+    if guards is None:
+        R.undecided('N5', inst + ':early-exit', 'the per-point loop is not a top-level statement')
+    elif not guards and all(x['k'] in ('Expr', 'Decl', 'Null') for x in top[:top.index(L)]):
+        R.holds('N5', inst + ':early-exit', 'no statement in front of the per-point loop can leave the function', loc, 'E-STATE')
+    else:
+        from .. import mini
+        bad = why = None
+        for k_ in (3, 10, 30):
+            for N_ in (k_ + 1, k_ + 2, 5 * k_):
+                env = {'this.numberOfNeighborPoints_': k_, 'points': N_, 'normals': N_, 'curvatures': N_, 'normalsReliability': N_}
+                stp = mini.Step(lambda t: _sizes(deep_unwrap(t)))
+                try:
+                    for g in (x for x in top[:top.index(L)] if x['k'] != 'Expr'):
+                        stp.run(g, env)
+                except mini.Returned:
+                    bad = bad or (N_, k_)
+                except mini.Unsupported as e:
+                    why = str(e)
+        if bad:
+            R.violated('N5', '%s::%s:early-exit' % (short_fn(cq.split('<')[0]), 'compute/' + str(len(names)) + 'args'), 'for a cloud of %d points and k = %d (the quantifier starts at k+1 points; the tree returns the query point '
+                       'as its own first neighbour) a guard in front of the per-point loop returns: no normal%s is written, the outputs keep whatever they held [%s]' % (
+                           bad[0], bad[1], '/curvature' if 'curvatures' in names else '', cname), loc, 'E-STEP')
+        elif why:
+            R.undecided('N5', inst + ':early-exit', 'guard in front of the loop not interpretable: %s' % why)
+        else:
+            R.holds('N5', inst + ':early-exit', 'guards in front of the loop never leave for N = k+1, k+2, 5k (k = 3, 10, 30)', loc, 'E-STEP')
     init = L.get('init')
     vs = {v['name']: v for v in init['vars']} if init and init['k'] == 'Decl' else {}
     cond = deep_unwrap(sx(L['c']))
@@ -136,7 +166,20 @@ def check_compute(fx, R, cq, cname, f):
         R.check(cp[0] == copy, 'N2', inst + ':eigenvector', 'normal is copied by %s; the eigenvector of the smallest eigenvalue is the first CARTESIAN_DIM entries of eigenVectors_.data()' % (cp[0],),
                 'copies column 0 of the eigenvectors', loc, 'E-SIB')
     else:
-        R.undecided('N2', inst + ':eigenvector', 'normal write idiom not recognised: %s' % ([s for s in body if writes_normal(s, n)],))
+        wr = [s_ for s_ in body if writes_normal(s_, n)]
+        import re
+        mm = re.match(r'new:Eigen::Map<const Eigen::Matrix<[a-z ]+, (\d+), 1, 0>', str(wr[0][2][0])) if len(wr) == 1 and wr[0][0] == '=' and wr[0][1] == ('[]', 'normals', n) and isinstance(wr[0][2], tuple) else None
+        D = dim_of(cq)
+        if mm and wr[0][2][1] == ('.data', 'this.eigenVectors_'):
+            K = int(mm.group(1))
+            if K == D:
+                R.holds('N2', inst + ':eigenvector', 'maps the first %d entries (column 0) of the eigenvectors' % K, loc, 'E-SIB')
+            else:
+                R.violated('N2', '%s::%s:eigenvector-length' % (short_fn(cq.split('<')[0]), 'compute/' + str(len(names)) + 'args'), 'the normal of %s is assigned the first %d entries of eigenVectors_.data(); column 0 '
+                           '(the least-variance direction) has %d: entry %d is the first component of the NEXT eigenvector and lands in the homogeneous coordinate of the normal, which is then not a unit direction '
+                           'and biases the sensor-facing test (the flip uses the full dot product)' % (cname, K, D, D), loc, 'E-SIB')
+        else:
+            R.undecided('N2', inst + ':eigenvector', 'normal write idiom not recognised: %s' % (wr,))
     if 'curvatures' in names:
         cur = [s for s in body if isinstance(s, tuple) and s[0] == '=' and s[1] == ('[]', 'curvatures', n)]
         want = ('/', ('()', 'this.eigenValues_', 0), ('.sum', 'this.eigenValues_'))
@@ -149,6 +192,15 @@ def check_compute(fx, R, cq, cname, f):
     if 'normalsReliability' in names:
         rl = [s for s in body if isinstance(s, tuple) and s[0] == '=' and s[1] == ('[]', 'normalsReliability', n)]
         R.check(len(rl) == 1 and rl[0][2] == ('.computeNormalReliability', 'this'), 'N2', inst + ':reliability', 'reliability is %s' % (rl,), 'computeNormalReliability()', loc, 'E-SIB')
+
+
+def _sizes(t):
+    """x.size() -> x (the scalar abstraction of a container is its size)"""
+    if isinstance(t, tuple):
+        if t and t[0] == '.size' and len(t) == 2:
+            return _sizes(t[1])
+        return tuple(_sizes(x) for x in t)
+    return t
 
 
 def writes_normal(s, n):
